@@ -526,6 +526,29 @@ func pending(b *Machine) bool { return len(b.nextHeaderSend) > 0 || len(b.nextBo
 //@   ensures @C15 implies(err == nil, len(out) <= math.MaxUint16)
 //@   ensures fresh(out) || isnil(out)
 
+// lemmaSealOpenRoundTrip: what one cipher state encrypts, a cipher state in
+// the same state (key, nonce, salt) decrypts to exactly the same bytes, and
+// afterwards the two states are equal again - also when this operation is the
+// one that rotates the key. By induction every later operation round-trips as
+// well, across any number of rotations; a record is two such operations
+// (WriteMessage / ReadHeader+ReadBody contracts). The bodies of Encrypt and
+// Decrypt are unfolded; the only cryptographic fact used is AEAD correctness
+// (Open of a Seal output under the same key, nonce and associated data returns
+// the plaintext).
+func lemmaSealOpenRoundTrip(w, r *cipherState, ad, p []byte) (out []byte, err error) {
+	ct := w.Encrypt(ad, nil, p)
+	return r.Decrypt(ad, nil, ct)
+}
+
+//@ func lemmaSealOpenRoundTrip(w, r *cipherState, ad, p []byte) (out []byte, err error)
+//@   props C08 C02
+//@   unfolds Encrypt Decrypt
+//@   noframe
+//@   requires w != nil && r != nil && w != r && csinv(w) && csinv(r)
+//@   requires w.secretKey == r.secretKey && w.nonce == r.nonce && w.salt == r.salt
+//@   ensures @C08,C02 err == nil && seqeq(out, p)
+//@   ensures @C08 w.secretKey == r.secretKey && w.nonce == r.nonce && w.salt == r.salt && csinv(w) && csinv(r)
+
 // ---- secured connections honour the stream contract (C15) -----------------------
 
 // appended(b, a, p): b == a ++ p.
